@@ -226,7 +226,7 @@ def gen_obj_for(rng, T, depth=2):
         rng.shuffle(kvs)
         return ["dict", rng.randrange(4), kvs]
     if origin is type:
-        return ["class", rng.choice(["int", "bool", "float", "str", "A", "B", "C", "object", "ISub", "FSub", "CSub", "FE", "SSub", "BSub", "TSub", "LSub", "DSub", "SE", "IE", "complex"])]
+        return ["class", rng.choice(["int", "bool", "float", "str", "A", "B", "C", "object", "ISub", "FSub", "CSub", "SSub", "BSub", "TSub", "LSub", "DSub", "complex"])]
     lab = rng.randrange(4)
     if origin is tuple:
         if len(args) == 2 and args[1] is Ellipsis:
